@@ -5,10 +5,10 @@ package main
 // blocks, as ext/dynblock presents it to hcldec:
 //   - for_each unknown: one block whose body is an unknownBody — every attribute
 //     evaluates to cty.DynamicVal carrying the marks of for_each, nested bodies
-//     are unknown too (their BodyValueMarks are those of their template: none);
+//     are unknown too;
 //   - for_each known with n elements: n blocks with the content body, whose
 //     attribute values (exprWrap) and body value (BodyValueMarks) carry the
-//     marks of for_each; static blocks nested in the content carry none.
+//     marks of for_each; static blocks nested in the content inherit them.
 // The generator never lets content refer to the iterator, uses constant labels
 // and only puts dynamic blocks where the spec is a block/collection spec.
 
@@ -54,13 +54,9 @@ func (d *dumper) body(b *hclsyntax.Body, attrMarks, bodyMarks cty.ValueMarks, un
 			blocks = append(blocks, d.dynamic(k, unknown, attrMarks)...)
 			continue
 		}
-		// a static block: no marks of its own; inside an unknown body it is unknown
-		// and its attributes keep the marks of the unknown for_each
-		var am cty.ValueMarks
-		if unknown {
-			am = attrMarks
-		}
-		blocks = append(blocks, d.block(k.Type, k.Labels, d.body(k.Body, am, nil, unknown)))
+		// a static block inherits the value marks of the body it is written in
+		// (expandChild(..., b.valueMarks)); inside an unknown body it is unknown
+		blocks = append(blocks, d.block(k.Type, k.Labels, d.body(k.Body, attrMarks, attrMarks, unknown)))
 	}
 	return fmt.Sprintf("(ABody %s %s %s %s)", hv.CoqList(attrs), hv.CoqList(blocks), hv.CoqBool(unknown), hv.CoqMarks(bodyMarks))
 }
